@@ -141,6 +141,7 @@ func (c *Ctx) gem() *GEM {
 		return c.gemCache
 	}
 	p := c.pkg("generator")
+	gemDeep = c.thorough()
 	g := &GEM{c: c, pkg: p, info: p.TypesInfo, funcs: map[*types.Func]*GFunc{}, byName: map[string]*GFunc{}}
 	if o := p.Types.Scope().Lookup("RangeWriter"); o != nil {
 		g.rwType, _ = o.Type().(*types.Named)
@@ -984,7 +985,10 @@ func endsInRet(p []Node) (Ret, bool) {
 	return r, ok
 }
 
-// expand enumerates paths; loops are unrolled 0, 1 and 2 times.
+// gemDeep: thorough tier — loops are additionally unrolled three times (same body thrice).
+var gemDeep bool
+
+// expand enumerates paths; loops are unrolled 0, 1 and 2 times (3 in the thorough tier).
 func expand(nodes []Node) ([][]Node, bool) {
 	paths := [][]Node{{}}
 	overflow := false
@@ -1026,6 +1030,11 @@ func expand(nodes []Node) ([][]Node, bool) {
 				} else {
 					for _, a := range cont {
 						next = append(next, concat(p, concat(a, a)))
+					}
+				}
+				if gemDeep {
+					for _, a := range cont {
+						next = append(next, concat(p, concat(a, concat(a, a))))
 					}
 				}
 			default:
